@@ -133,7 +133,8 @@ class Recorder:
 
 
 MODES = [Mode("single", None, "lower", "float"), Mode("single", None, "lower", "mixed"),
-         Mode("multi", None, "lower", "int"), Mode("long", False, "lower", "float")]
+         Mode("multi", None, "lower", "int"), Mode("long", False, "lower", "float"),
+         Mode("digit", None, "lower", "float"), Mode("shapes", False, "lower", "mixed")]
 
 _ACC = re.compile(r'^"ACCEPT (\d+)"')
 _AT = re.compile(r'^"AT (\d+) (\d+)"')
